@@ -26,10 +26,12 @@ type CaseC01 struct {
 	Flag    bool    `json:"flag"`
 	FlipBit int     `json:"flip_bit"` // 0..1503
 	Len     int     `json:"len"`      // slice length handed to FromBytes
+	Lead    int     `json:"lead"`     // the packet bytes start at this offset of that slice (other framings embed the packet after a prefix)
 }
 
 func genC01(t *rapid.T) CaseC01 {
 	var pkt []byte
+	wellFormed := false
 	switch rapid.IntRange(0, 7).Draw(t, "fill") {
 	case 0:
 		pkt = make([]byte, 188)
@@ -47,11 +49,16 @@ func genC01(t *rapid.T) CaseC01 {
 	case 4:
 		p := packet.TestPmtPacket
 		pkt = clone(p[:])
+	case 5:
+		// a well-formed packet whose payload may start like a PES packet, a PSI section or another packet
+		b := genWellFormedPacket(t, []int{1, 1, 3}, 0).MustBytes()
+		pkt = clone(b[:])
+		wellFormed = true
 	default:
 		pkt = rapid.SliceOfN(rapid.Byte(), 188, 188).Draw(t, "pkt")
 	}
 	// header bytes get boundary-biased contents of their own
-	if rapid.Bool().Draw(t, "hdr") {
+	if !wellFormed && rapid.Bool().Draw(t, "hdr") {
 		pkt[0] = rapid.SampledFrom([]byte{0x47, 0x47, 0x46, 0x00, 0xFF}).Draw(t, "b0")
 		pkt[1] = byte(genBits(t, 8, "b1"))
 		pkt[2] = byte(genBits(t, 8, "b2"))
@@ -67,9 +74,13 @@ func genC01(t *rapid.T) CaseC01 {
 	case 0:
 		c.Len = 188
 	case 1:
-		c.Len = rapid.SampledFrom([]int{0, 1, 187, 189, 376, 4, 184}).Draw(t, "len-b")
+		// neighbours of 188 and the sizes of other packet framings (192 = 4-byte timestamp + packet, 204/208 = packet + FEC, 376 = two packets)
+		c.Len = rapid.SampledFrom([]int{0, 1, 187, 189, 376, 4, 184, 192, 204, 208, 196}).Draw(t, "len-b")
 	default:
 		c.Len = rapid.IntRange(0, 400).Draw(t, "len")
+	}
+	if c.Len != 188 {
+		c.Lead = rapid.SampledFrom([]int{0, 0, 4, 4, 1, 8, 16}).Draw(t, "lead")
 	}
 	return c
 }
@@ -279,10 +290,10 @@ func c01Equal(orig *packet.Packet, bit int) *hx.Failure {
 	return nil
 }
 
-func c01FromBytes(pkt []byte, n int) *hx.Failure {
+func c01FromBytes(pkt []byte, n, lead int) *hx.Failure {
 	buf := make([]byte, n)
 	for i := range buf {
-		buf[i] = pkt[i%188]
+		buf[i] = pkt[(i+188-lead%188)%188]
 	}
 	keep := clone(buf)
 	p, err := packet.FromBytes(buf)
@@ -346,7 +357,7 @@ func checkC01(c CaseC01, x *hx.Ctx) *hx.Failure {
 	if f := c01Equal(orig, c.FlipBit); f != nil {
 		return f
 	}
-	if f := c01FromBytes(c.Pkt, c.Len); f != nil {
+	if f := c01FromBytes(c.Pkt, c.Len, c.Lead); f != nil {
 		return f
 	}
 	// non-trivial: some header field differs from the value being set, or neighbour bits are set
@@ -391,7 +402,12 @@ func c01Fills() [][]byte {
 	for i := range m {
 		m[i] = byte(i*37 + 11)
 	}
-	return [][]byte{z, o, m}
+	v := make([]byte, 188) // a valid packet: sync byte, PID 0x100, payload only
+	copy(v, []byte{0x47, 0x01, 0x00, 0x1A})
+	for i := 4; i < 188; i++ {
+		v[i] = byte(i)
+	}
+	return [][]byte{z, o, m, v}
 }
 
 // TestC01ExhaustiveGetters: all 2^24 states of bytes 1-3, sync byte good and bad.
@@ -444,7 +460,7 @@ func TestC01ExhaustiveSetters(t *testing.T) {
 				}
 			}
 		}
-		rec.Subspace("flag/TSC/CC setters and counter helpers: all 256 states of the touched byte x all in-range values x 3 fills")
+		rec.Subspace("flag/TSC/CC setters and counter helpers: all 256 states of the touched byte x all in-range values x 4 fills")
 	}
 	// PID: all 65536 states of bytes 1-2 x values
 	var pidVals []int
@@ -504,24 +520,29 @@ func TestC01ExhaustiveEqual(t *testing.T) {
 			n++
 		}
 		for l := 0; l <= 400; l++ {
-			if f := c01FromBytes(fill, l); f != nil {
-				c01Fail(t, CaseC01{Pkt: clone(fill), Len: l})
+			for _, lead := range []int{0, 4} {
+				if l == 188 && lead != 0 {
+					continue
+				}
+				if f := c01FromBytes(fill, l, lead); f != nil {
+					c01Fail(t, CaseC01{Pkt: clone(fill), Len: l, Lead: lead})
+				}
+				n++
 			}
-			n++
 		}
 	}
 	buf := make([]byte, 188)
 	for b0 := 0; b0 < 256; b0++ {
 		for b3 := 0; b3 < 256; b3++ {
 			buf[0], buf[3] = byte(b0), byte(b3)
-			if f := c01FromBytes(buf, 188); f != nil {
+			if f := c01FromBytes(buf, 188, 0); f != nil {
 				c01Fail(t, CaseC01{Pkt: clone(buf), Len: 188})
 			}
 			n++
 		}
 	}
 	rec.Bulk(n, n)
-	rec.Subspace("Equal/Equals: all 1504 single-bit differences x 3 fills; FromBytes: all lengths 0..400 x 3 fills and all 65536 (byte0, byte3) pairs")
+	rec.Subspace("Equal/Equals: all 1504 single-bit differences x 4 fills; FromBytes: all lengths 0..400 x packet at offset 0 or 4 of the slice x 4 fills and all 65536 (byte0, byte3) pairs")
 }
 
 func FuzzC01(f *testing.F) {
